@@ -88,12 +88,7 @@ impl Limiter {
 //@@ fn limiter.create_process = src/limits.rs :: impl Limiter :: fn create_process
 //@@ safety C08 C03
 //@@ ret r
-//@@ header
-    requires next.inv(),
-    ensures r.inv(), r.log() == next.log(),
-        // --skip S --take T is the window S..S+T-1 of whatever reaches it
-        forall|rows: Seq<Context>| #[trigger] r.fut(rows) == next.fut(window(skip as nat, match limit { Some(l) => Some(l as nat), None => None }, rows)), // @obl STAGE.limiter.ctor.window : C08 C03
-        limit != Some(0u64) && !next.must_break() ==> !r.must_break(), // @obl STAGE.limiter.ctor.fresh : C14
+//@@ header-from specs/stage/limiter.create_process.spec
 //@@ endfn
 }
 
@@ -126,10 +121,7 @@ impl Filter {
 //@@ fn filter.create_process = src/filter.rs :: impl Filter :: fn create_process
 //@@ safety C03
 //@@ ret r
-//@@ header
-    requires next.inv(),
-    ensures r.inv(), r.log() == next.log(), r.must_break() == next.must_break(),
-        forall|rows: Seq<Context>| #[trigger] r.fut(rows) == next.fut(filter_rows(self.g(), rows)), // @obl STAGE.filter.ctor : C03 C11
+//@@ header-from specs/stage/filter.create_process.spec
 //@@ endfn
 }
 
@@ -165,10 +157,7 @@ impl Selection {
 //@@ fn selection.create_process = src/selection.rs :: impl Selection :: fn create_process
 //@@ safety C03
 //@@ ret r
-//@@ header
-    requires next.inv(),
-    ensures r.inv(), r.log() == next.log(), r.must_break() == next.must_break(),
-        forall|rows: Seq<Context>| #[trigger] r.fut(rows) == next.fut(select_rows(self.g(), self.title(), rows)), // @obl STAGE.selection.ctor : C03 C11
+//@@ header-from specs/stage/selection.create_process.spec
 //@@ endfn
 }
 
@@ -223,10 +212,7 @@ impl Splitter {
 //@@ fn splitter.create_process = src/splitter.rs :: impl Splitter :: fn create_process
 //@@ safety C03
 //@@ ret r
-//@@ header
-    requires next.inv(),
-    ensures r.inv(), r.log() == next.log(), r.must_break() == next.must_break(),
-        forall|rows: Seq<Context>| #[trigger] r.fut(rows) == next.fut(split_rows(self.g(), rows)), // @obl STAGE.splitter.ctor : C03 C11
+//@@ header-from specs/stage/splitter.create_process.spec
 //@@ endfn
 }
 
@@ -304,10 +290,7 @@ impl Uniquness {
 //@@ fn uniq.create_process = src/duplication_remover.rs :: impl Uniquness :: fn create_process
 //@@ safety C03 C10
 //@@ ret r
-//@@ header
-    requires next.inv(),
-    ensures r.inv(), r.log() == next.log(), r.must_break() == next.must_break(),
-        forall|rows: Seq<Context>| #[trigger] r.fut(rows) == next.fut(uniq_rows(Set::empty(), rows)), // @obl STAGE.uniq.ctor : C03 C10
+//@@ header-from specs/stage/uniq.create_process.spec
 //@@ endfn
 }
 
@@ -345,11 +328,7 @@ impl Merger {
 //@@ fn merger.create_process = src/merger.rs :: impl Merger :: fn create_process
 //@@ safety C03 C09
 //@@ ret r
-//@@ header
-    requires next.inv(), next.eager(),
-    ensures r.inv(), r.log() == next.log(), !r.must_break(),
-        // --merge: exactly one array holding every row that reaches it, built, in order — also for no rows at all
-        forall|rows: Seq<Context>| #[trigger] r.fut(rows) == next.fut(seq![merged_row(Seq::empty(), rows)]), // @obl STAGE.merger.ctor : C09 C03
+//@@ header-from specs/stage/merger.create_process.spec
 //@@ endfn
 }
 
@@ -400,11 +379,7 @@ impl Grouper {
 //@@ fn grouper.create_process = src/grouper.rs :: impl Grouper :: fn create_process
 //@@ safety C03 C09
 //@@ ret r
-//@@ header
-    requires next.inv(), next.eager(),
-    ensures r.inv(), r.log() == next.log(), !r.must_break(),
-        // --group-by: exactly one object; keys in first-seen order, each array in arrival order, non-string keys dropped
-        forall|rows: Seq<Context>| #[trigger] r.fut(rows) == next.fut(seq![grouped_row(self.g(), Seq::empty(), rows)]), // @obl STAGE.grouper.ctor : C09 C03
+//@@ header-from specs/stage/grouper.create_process.spec
 //@@ body-start
         proof { assert forall|e: Seq<(String, Vec<JsonValue>)>| e.len() == 0 implies #[trigger] groups_view(e) =~= Seq::<(String, Seq<JsonValue>)>::empty() by {} }
 //@@ endfn
@@ -492,12 +467,7 @@ impl Sorter {
 //@@ fn sorter.create_processor = src/sorters.rs :: impl Sorter :: fn create_processor
 //@@ safety C03 C07 C08
 //@@ ret r
-//@@ header
-    requires next.inv(),
-    ensures r.inv(), r.log() == next.log(), !r.must_break(),
-        // --sort-by: the rows that have a key, emitted bucket by bucket in key order (reverse for DESC), each bucket in
-        // arrival order; with a capacity the bucket machine drops the row that would come last whenever it is full
-        forall|rows: Seq<Context>| #[trigger] r.fut(rows) == next.fut(emit(self.asc(), sort_all(self.g(), self.asc(), Seq::empty(), cap_of(max_size), rows))), // @obl STAGE.sorter.ctor : C07 C08 C03
+//@@ header-from specs/stage/sorter.create_processor.spec
 //@@ body-start
         proof { assert forall|e: Seq<(JsonValue, VecDeque<Context>)>| e.len() == 0 implies #[trigger] bkv(e) =~= Seq::<(JsonValue, Seq<Context>)>::empty() by {} }
 //@@ endfn
